@@ -11,9 +11,9 @@ bool splinetable<Alloc>::searchcenters(const double* x, int* centers) const
 {
 	for (uint32_t i = 0; i < ndim; i++) {
 		
-		/* Ensure we are actually inside the table. */
-		if (x[i] <= knots[i][0] ||
-			x[i] > knots[i][nknots[i]-1])
+		/* Ensure we are actually inside the table (NaN is never inside). */
+		if (!(x[i] > knots[i][0] &&
+			x[i] <= knots[i][nknots[i]-1]))
 			return (false);
 		
 		/*
